@@ -12,6 +12,7 @@ CONSTANTS
   Challenge = 0
   Precedence = 0
   MaxBlock = 12
+  Gates = {TRUE, FALSE}
   Faults = {"none", "precheck", "invalid", "waiter", "submit"}
 INVARIANTS TypeOK SlotsInjective RelayBeforeTimeout RequestIsSlot ObservedNeverSubmits GateBlocksSubmission SingleWinner MonitoringOnlyRelay RelaySlotBeforeTimeoutBlock
 PROPERTIES NoSubmitAfterObserve NoSubmitBeforeSlot
